@@ -967,7 +967,7 @@ type = "raw"
 [cost.vehicle_rates.distance]
 type = "raw"
 [plugin]
-input_plugins = []
+input_plugins = [ {{ type = "grid_search" }} ]
 output_plugins = [ {{ type = "summary" }}, {{ type = "traversal", route = "edge_id", geometry_input_file = "{d}/edge_geometries.txt" }} ]
 "#
     );
@@ -987,6 +987,44 @@ struct AppCase {
     persist: bool,
     parallelism: usize,
     queries: Vec<Value>,
+}
+
+/// how many responses a query yields: 1, or the size of its grid; `bad`: it fails input processing
+/// (not a JSON object, or a grid_search section that cannot be enumerated) and yields one error response
+fn query_kind(q: &Value) -> (usize, bool) {
+    let Some(o) = q.as_object() else { return (1, true) };
+    match o.get("grid_search") {
+        None => (1, false),
+        Some(g) => {
+            let Some(go) = g.as_object() else { return (1, true) };
+            if g.to_string().contains("grid_search") {
+                return (1, true);
+            }
+            let axes: Vec<usize> = go.values().filter_map(|v| v.as_array().map(|a| a.len())).collect();
+            if axes.is_empty() || axes.iter().any(|n| *n == 0) {
+                (1, true)
+            } else {
+                (axes.iter().product(), false)
+            }
+        }
+    }
+}
+
+/// undo the CSV formatter's bookkeeping on a response handed back: it appended one key when a cell failed
+fn before_csv_write(cols: &[(String, MapSpec)], post: &Value) -> Value {
+    let mut probe = post.clone();
+    if let Some(o) = probe.as_object_mut() {
+        if o.contains_key("csv_error") {
+            o.shift_remove("csv_error");
+        } else {
+            o.shift_remove("error");
+        }
+    }
+    if cols.iter().any(|(_, m)| m.reference(&probe).is_none()) {
+        probe
+    } else {
+        post.clone()
+    }
 }
 
 /// returns the file the run left
@@ -1010,7 +1048,8 @@ fn case_a(ctx: &mut Ctx, idx: usize, app: &CompassApp, c: &AppCase) -> Option<St
     let res = catch_unwind(AssertUnwindSafe(|| app.run(c.queries.clone(), Some(&cfg))));
     let file = std::fs::read_to_string(&path).unwrap_or_default();
     let _ = std::fs::remove_file(&path);
-    let n_bad = c.queries.iter().filter(|q| !q.is_object()).count();
+    let n_bad: usize = c.queries.iter().filter(|q| query_kind(q).1).count();
+    let expected: usize = c.queries.iter().map(|q| query_kind(q).0).sum();
     let header = real_fmt.initial_file_contents().unwrap_or_default();
     let opened = c.existing.clone().unwrap_or(header.clone());
     let returned: Vec<Value> = match res {
@@ -1025,14 +1064,18 @@ fn case_a(ctx: &mut Ctx, idx: usize, app: &CompassApp, c: &AppCase) -> Option<St
     let prefix_ok = file.starts_with(&opened);
     let rest: &str = if prefix_ok { &file[opened.len()..] } else { "" };
     let lines: Vec<&str> = if rest.is_empty() { vec![] } else { rest.strip_suffix('\n').unwrap_or(rest).split('\n').collect() };
-    // the responses that went through the sink, as they were before the write
-    let input_errors: Vec<Value> = returned[returned.len().saturating_sub(n_bad)..].to_vec();
+    // the responses of queries that failed input processing come last in what is handed back (both policies)
+    let split = returned.len().saturating_sub(n_bad);
+    let errors_post: Vec<Value> = returned[split..].to_vec();
     let mut inexact = false;
-    let written_post: Vec<Value> = if c.persist {
-        returned[..returned.len().saturating_sub(n_bad)].to_vec()
+    let searched_post: Vec<Value> = if c.persist {
+        returned[..split].to_vec()
     } else {
+        // nothing else is handed back: take the searched responses from the file (the main thread writes the
+        // error responses first)
         lines
             .iter()
+            .skip(n_bad.min(lines.len()))
             .filter_map(|l| {
                 let v = serde_json::from_str::<Value>(l).ok()?;
                 if serde_json::to_string(&v).ok()?.as_str() != *l {
@@ -1042,30 +1085,12 @@ fn case_a(ctx: &mut Ctx, idx: usize, app: &CompassApp, c: &AppCase) -> Option<St
             })
             .collect()
     };
-    let written_pre: Vec<Value> = match &c.fmt {
-        FmtSpec::Csv { cols, .. } => written_post
-            .iter()
-            .map(|post| {
-                let mut pre = post.clone();
-                // undo the formatter's bookkeeping: it appended one key when a cell failed
-                let probe = {
-                    let mut p0 = post.clone();
-                    if let Some(o) = p0.as_object_mut() {
-                        if o.contains_key("csv_error") {
-                            o.shift_remove("csv_error");
-                        } else {
-                            o.shift_remove("error");
-                        }
-                    }
-                    p0
-                };
-                if cols.iter().any(|(_, m)| m.reference(&probe).is_none()) {
-                    pre = probe;
-                }
-                pre
-            })
-            .collect(),
-        _ => written_post.clone(),
+    let (searched_pre, errors_pre): (Vec<Value>, Vec<Value>) = match &c.fmt {
+        FmtSpec::Csv { cols, .. } => (
+            searched_post.iter().map(|r| before_csv_write(cols, r)).collect(),
+            errors_post.iter().map(|r| before_csv_write(cols, r)).collect(),
+        ),
+        _ => (searched_post.clone(), errors_post.clone()),
     };
     let canonical = if !prefix_ok {
         file.clone()
@@ -1076,9 +1101,9 @@ fn case_a(ctx: &mut Ctx, idx: usize, app: &CompassApp, c: &AppCase) -> Option<St
     } else {
         file.clone()
     };
-    // the model's view: `parallelism` workers sharing the written responses
+    // the model's view: `parallelism` workers sharing the searched responses, and the error responses
     let mut workers: Vec<Vec<&Value>> = vec![vec![]; c.parallelism.max(1)];
-    for (i, r) in written_pre.iter().enumerate() {
+    for (i, r) in searched_pre.iter().enumerate() {
         let k = workers.len();
         workers[i % k].push(r);
     }
@@ -1103,17 +1128,29 @@ fn case_a(ctx: &mut Ctx, idx: usize, app: &CompassApp, c: &AppCase) -> Option<St
             line.push_str(&enc(r));
         }
     }
-    line.push_str(&format!(" {}", input_errors.len()));
-    for r in &input_errors {
+    line.push_str(&format!(" {}", errors_pre.len()));
+    for r in &errors_pre {
         line.push(' ');
         line.push_str(&enc(r));
     }
-    let out = format!("ok {} {}", hex(&canonical), returned.len());
+    let mut encs: Vec<String> = returned.iter().map(|r| enc(&canon(r))).collect();
+    encs.sort();
+    let mut out = format!("ok {} {}", hex(&canonical), returned.len());
+    for e in &encs {
+        out.push(' ');
+        out.push_str(e);
+    }
     ctx.count(&format!("A/parallelism-{}", c.parallelism));
     ctx.count(if c.persist { "A/persist" } else { "A/discard" });
     ctx.count(&format!("A/{}", c.fmt.shape().split('x').next().unwrap_or("")));
     if n_bad > 0 {
         ctx.count("A/with-input-plugin-errors");
+        if n_bad == c.queries.len() {
+            ctx.count("A/only-input-plugin-errors");
+        }
+    }
+    if expected > c.queries.len() {
+        ctx.count("A/with-grid-expansion");
     }
     if inexact {
         ctx.count("A/discard-reparse-inexact");
@@ -1121,28 +1158,41 @@ fn case_a(ctx: &mut Ctx, idx: usize, app: &CompassApp, c: &AppCase) -> Option<St
     if c.queries.len() >= 2 {
         ctx.nontrivial(&format!("A {} {} {} {} {}", c.fmt.shape(), c.parallelism, c.queries.len(), c.persist, n_bad));
     }
-    // ---- oracle: one record per response of the batch
-    let expected = c.queries.len();
+    // ---- oracle: one record per response of the batch, error responses included
     if !prefix_ok {
         ctx.fail(idx, "sink/file-prefix-changed", format!("{:?} -> {:?}", clip(&opened), clip(&file)));
     } else {
-        if c.persist && returned.len() != expected {
-            ctx.fail(idx, "app/response-count", format!("{} queries, {} responses", expected, returned.len()));
+        let handed_back = if c.persist { expected } else { n_bad };
+        if returned.len() != handed_back {
+            ctx.fail(idx, "app/response-count", format!("{} responses expected back, {} returned", handed_back, returned.len()));
         }
         if !rest.is_empty() && !rest.ends_with('\n') {
             ctx.fail(idx, "sink/record-truncated", "file does not end with a newline".into());
         }
-        if lines.len() != expected {
+        let count_ok = lines.len() == expected;
+        if !count_ok {
             if n_bad > 0 && lines.len() + n_bad == expected {
                 ctx.fail(
                     idx,
                     "app/input-error-response-not-written",
-                    format!("{} queries, {} responses handed back, {} records in the file: the {} responses of queries that failed input processing are not written", expected, returned.len(), lines.len(), n_bad),
+                    format!("{} responses in the batch, {} handed back, {} records in the file: the {} responses of queries that failed input processing are not written", expected, returned.len(), lines.len(), n_bad),
                 );
             } else {
-                ctx.fail(idx, "sink/record-count", format!("{} queries, {} records in the file", expected, lines.len()));
+                ctx.fail(idx, "sink/record-count", format!("{} responses in the batch, {} records in the file", expected, lines.len()));
             }
         }
+        let multiset_eq = |got: &[Value], want: &[Value]| -> bool {
+            let mut used = vec![false; want.len()];
+            got.len() == want.len()
+                && got.iter().all(|g| {
+                    if let Some(j) = (0..want.len()).find(|&j| !used[j] && approx_eq(g, &want[j])) {
+                        used[j] = true;
+                        true
+                    } else {
+                        false
+                    }
+                })
+        };
         match &c.fmt {
             FmtSpec::Json(true) => {
                 let mut parsed = vec![];
@@ -1152,44 +1202,36 @@ fn case_a(ctx: &mut Ctx, idx: usize, app: &CompassApp, c: &AppCase) -> Option<St
                         Err(e) => ctx.fail(idx, "sink/json-record-unparseable", format!("{}: {}", e, clip(l))),
                     }
                 }
-                if c.persist {
-                    let mut used = vec![false; written_post.len()];
-                    let all = parsed.len() == written_post.len()
-                        && parsed.iter().all(|g| {
-                            if let Some(j) = (0..written_post.len()).find(|&j| !used[j] && approx_eq(g, &written_post[j])) {
-                                used[j] = true;
-                                true
-                            } else {
-                                false
-                            }
-                        });
-                    if !all {
-                        ctx.fail(idx, "sink/json-record-mismatch", "the records of the file are not the searched responses handed back".into());
-                    }
-                } else {
-                    // nothing is handed back: every record must answer one of the queries
-                    let mut want: Vec<String> = c.queries.iter().filter(|q| q.is_object()).map(|q| q.to_string()).collect();
-                    let mut got: Vec<String> = parsed.iter().map(|v| v.get("request").map(|r| r.to_string()).unwrap_or_default()).collect();
-                    want.sort();
-                    got.sort();
-                    if want != got {
-                        ctx.fail(idx, "sink/json-record-mismatch", format!("requests of the records {:?} are not the queries {:?}", clip(&got.join(";")), clip(&want.join(";"))));
+                if count_ok && parsed.len() == lines.len() {
+                    if c.persist {
+                        if !multiset_eq(&parsed, &returned) {
+                            ctx.fail(idx, "sink/json-record-mismatch", "the records of the file are not the responses handed back".into());
+                        }
+                    } else {
+                        // only the error responses are handed back: they are the first records; every other
+                        // record must be an object holding its request
+                        if !multiset_eq(&parsed[..n_bad.min(parsed.len())], &returned) {
+                            ctx.fail(idx, "sink/json-record-mismatch", "the first records of the file are not the error responses handed back".into());
+                        }
+                        if parsed.iter().any(|v| v.get("request").is_none()) {
+                            ctx.fail(idx, "sink/json-record-mismatch", "a record without its request".into());
+                        }
                     }
                 }
             }
-            FmtSpec::Csv { cols, .. } if !cols.is_empty() => {
+            FmtSpec::Csv { cols, .. } if !cols.is_empty() && c.persist => {
                 let names: Vec<String> = header.trim_end_matches('\n').split(',').map(|s| s.to_string()).collect();
-                let mut want: Vec<String> = written_pre.iter().map(|r| reference_row(cols, &names, r).unwrap_or_default()).collect();
+                let mut want: Vec<String> = errors_pre.iter().chain(searched_pre.iter()).map(|r| reference_row(cols, &names, r).unwrap_or_default()).collect();
                 let mut got: Vec<String> = lines.iter().map(|s| s.to_string()).collect();
                 want.sort();
                 got.sort();
-                if c.persist && want != got {
+                if count_ok && want != got {
                     ctx.fail(idx, "sink/csv-row-mismatch", format!("rows {:?} expected {:?}", clip(&got.join(";")), clip(&want.join(";"))));
                 }
                 if file.split('\n').filter(|l| *l == header.trim_end_matches('\n')).count() != 1 && file.starts_with(&header) {
                     ctx.fail(idx, "sink/csv-header-repeated", "more than one header line".into());
                 }
-                for (pre, post) in written_pre.iter().zip(&written_post) {
+                for (pre, post) in searched_pre.iter().zip(&searched_post).chain(errors_pre.iter().zip(&errors_post)) {
                     check_preserved(ctx, idx, pre, post);
                 }
             }
@@ -1201,12 +1243,19 @@ fn case_a(ctx: &mut Ctx, idx: usize, app: &CompassApp, c: &AppCase) -> Option<St
 }
 
 fn gen_query(rng: &mut Rng) -> Value {
-    match rng.below(20) {
+    match rng.below(24) {
         0 => json!(rng.below(10)),
         1 => json!(gen_string(rng)),
-        2 | 3 => json!({"origin_vertex": rng.below(3), "destination_vertex": 99}),
-        4 => json!({"origin_vertex": rng.below(3)}),
-        5 => json!({"origin_vertex": rng.below(3), "destination_vertex": rng.below(3), "name": gen_string(rng)}),
+        2 => if rng.chance(1, 2) { Value::Null } else { json!(true) },
+        3 => json!({"origin_vertex": rng.below(3), "destination_vertex": rng.below(3), "grid_search": {}}),
+        4 => json!({"origin_vertex": rng.below(3), "grid_search": {"destination_vertex": []}}),
+        5 => json!({"origin_vertex": rng.below(3), "destination_vertex": 1, "grid_search": {"x": 1, "y": "z"}}),
+        6 => json!({"origin_vertex": rng.below(3), "destination_vertex": 1, "grid_search": 7}),
+        7 => json!({"origin_vertex": rng.below(3), "grid_search": {"destination_vertex": [0, 1, 2]}}),
+        8 => json!({"grid_search": {"origin_vertex": [0, 1], "destination_vertex": [1, 2], "note": "kept"}}),
+        9 | 10 => json!({"origin_vertex": rng.below(3), "destination_vertex": 99}),
+        11 => json!({"origin_vertex": rng.below(3)}),
+        12 => json!({"origin_vertex": rng.below(3), "destination_vertex": rng.below(3), "name": gen_string(rng)}),
         _ => json!({"origin_vertex": rng.below(3), "destination_vertex": rng.below(3)}),
     }
 }
@@ -1522,9 +1571,23 @@ pub fn run(ctx: &mut Ctx) -> &'static str {
     }
     // ---- end to end: CompassApp::run with a per-run file policy
     if let Some(app) = build_app() {
-        // corpus: one good query and one that fails input processing — two responses, one record
+        // corpus (fixed d0fd74e): one good query and one that fails input processing — two responses, two
+        // records, under both policies; a batch of failing queries only (the early return); a degenerate grid
+        for (persist, queries) in [
+            (true, vec![json!({"origin_vertex": 0, "destination_vertex": 2}), json!(5)]),
+            (false, vec![json!({"origin_vertex": 0, "destination_vertex": 2}), json!(5)]),
+            (true, vec![json!(5), json!("str")]),
+            (false, vec![json!(5), json!({"origin_vertex": 0, "grid_search": {"destination_vertex": []}})]),
+            (true, vec![json!({"origin_vertex": 0, "grid_search": {"destination_vertex": [1, 2]}}), json!({"grid_search": {}})]),
+        ] {
+            if let (idx, true) = begin!() {
+                let c = AppCase { existing: None, fmt: FmtSpec::Json(true), rate: None, persist, parallelism: 2, queries };
+                case_a(ctx, idx, &app, &c);
+            }
+        }
         if let (idx, true) = begin!() {
-            let c = AppCase { existing: None, fmt: FmtSpec::Json(true), rate: None, persist: true, parallelism: 2, queries: vec![json!({"origin_vertex": 0, "destination_vertex": 2}), json!(5)] };
+            let f = csv(&[("origin", p("request.origin_vertex")), ("distance", p("route.traversal_summary.distance"))], false);
+            let c = AppCase { existing: None, fmt: f, rate: None, persist: true, parallelism: 3, queries: vec![json!({"origin_vertex": 0, "destination_vertex": 2}), json!(5), json!({"origin_vertex": 2, "destination_vertex": 0})] };
             case_a(ctx, idx, &app, &c);
         }
         let n_app = ctx.n(150, 1500);
